@@ -77,6 +77,7 @@ func checkC06(ctx *Ctx, r *Report, tier string) {
 	} else {
 		r.undecided("V3", "marchingCubes", 0, "not found")
 	}
+	paddedLattice(ctx, r)
 	if ufn := ctx.ssaFunc("render", "marchingSquares"); ufn != nil {
 		if cm, err := uniformCorners(ctx, ufn, "msToLines", 2, "get", "newLineCache", "evaluate"); err != nil {
 			r.undecided("V3", "marchingSquares", ufn.Pos(), err.Error())
@@ -957,6 +958,7 @@ func sampleLattice(ctx *Ctx, r *Report, rule string, march *ssa.Function, ctor, 
 		}
 	}
 	r.check(rule, key+"|samples-lattice-points-axis-by-axis", m.Pos(), okA, fmt.Sprintf("%d sample position(s): coordinate A is base.A + index·inc.A;%s", len(samples), detail))
+	sampleCounts(ctx, r, rule, key, m)
 
 	// (b) the marching loop: corner 0 of the cell and the cell's extent
 	ev2 := newEval(ctx, ctor, "Evaluate", "evaluate", kernel, "Get", "get", "evalRoutines")
@@ -1006,4 +1008,147 @@ func sampleLattice(ctx *Ctx, r *Report, rule string, march *ssa.Function, ctor, 
 		}
 	}
 	r.check(rule, march.Name()+"|cell-corners-on-the-sampled-lattice", ks[0].Pos, okB, "corner 0 of cell (x,y,z) is base + (x,y,z)∘inc and the cell spans inc, with the base and inc the layer cache was built with;"+detailB)
+}
+
+// sampleCounts: n cells along an axis have n+1 lattice points. Every counted loop of the layer
+// method that takes samples (calls the shape or appends a point to a batch) runs over
+// 0 .. steps, i.e. its bound is `< X + 1` or `<= X` with X read from the cache object - a loop
+// that stops at `< X` leaves the last row of corner values at their zero value, and the cells
+// along that side of the box interpolate against a phantom 0.
+func sampleCounts(ctx *Ctx, r *Report, rule, key string, m *ssa.Function) {
+	loops := loopDescs(m, topoAll(m))
+	n, bad := 0, ""
+	for _, ld := range loops {
+		samples := false
+		for _, b := range ld.order {
+			for _, ins := range b.Instrs {
+				c, ok := ins.(*ssa.Call)
+				if !ok {
+					continue
+				}
+				if c.Call.IsInvoke() && c.Call.Method.Name() == "Evaluate" {
+					samples = true
+				}
+				if bi, ok := c.Call.Value.(*ssa.Builtin); ok && bi.Name() == "append" {
+					samples = true
+				}
+			}
+		}
+		if !samples {
+			continue
+		}
+		iff, ok := ld.header.Instrs[len(ld.header.Instrs)-1].(*ssa.If)
+		if !ok {
+			continue
+		}
+		bo, ok := iff.Cond.(*ssa.BinOp)
+		if !ok {
+			continue
+		}
+		phi, isPhi := bo.X.(*ssa.Phi)
+		if !isPhi || phi.Block() != ld.header {
+			continue
+		}
+		n++
+		fromObject := func(v ssa.Value) bool {
+			ld, ok := v.(*ssa.UnOp)
+			if !ok || ld.Op != token.MUL {
+				return false
+			}
+			x := ld.X
+			for {
+				fa, ok := x.(*ssa.FieldAddr)
+				if !ok {
+					break
+				}
+				x = fa.X
+			}
+			return len(m.Params) > 0 && x == ssa.Value(m.Params[0])
+		}
+		good := false
+		switch bo.Op {
+		case token.LEQ:
+			good = fromObject(bo.Y)
+		case token.LSS:
+			if add, ok := bo.Y.(*ssa.BinOp); ok && add.Op == token.ADD {
+				for i, side := range []ssa.Value{add.X, add.Y} {
+					other := []ssa.Value{add.Y, add.X}[i]
+					if k, ok := side.(*ssa.Const); ok && k.Value != nil && k.Int64() == 1 && fromObject(other) {
+						good = true
+					}
+				}
+			}
+		}
+		if !good {
+			bad += fmt.Sprintf(" the sampling loop at %s is not bounded by steps + 1;", ctx.pos(branchPos(ld.header, iff)))
+		}
+	}
+	if n == 0 {
+		r.undecided(rule, key+"|one-sample-more-than-cells-per-axis", m.Pos(), "no counted sampling loop recognised")
+		return
+	}
+	r.check(rule, key+"|one-sample-more-than-cells-per-axis", m.Pos(), bad == "", fmt.Sprintf("%d sampling loop(s), each over 0 .. steps inclusive;%s", n, bad))
+}
+
+// paddedLattice (V7): the uniform 3D renderer meshes the box (⌈size/inc⌉ + 1)·inc around the
+// shape's centre: at least one spare cell per axis whatever the rounding of size/inc. A cell
+// count taken by truncation (an integer conversion of the quotient) is one short exactly when
+// the quotient is an integer k that evaluates to k − 1ulp, and the face lying on the box is
+// lost. Decided on the closed form of the box handed to marchingCubes: per axis, size/inc − 1 is
+// a ceiling of a term in the shape's own box, and no float-to-integer conversion occurs in it.
+func paddedLattice(ctx *Ctx, r *Report) {
+	var fn *ssa.Function
+	for _, f := range ctx.srcFuncs("render") {
+		if f.Name() == "Render" && f.Signature.Recv() != nil && strings.Contains(f.Signature.Recv().Type().String(), "MarchingCubesUniform") {
+			fn = f
+		}
+	}
+	key := "MarchingCubesUniform.Render|one-spare-cell-per-axis"
+	if fn == nil {
+		r.undecided("V7", key, 0, "Render not found")
+		return
+	}
+	ev := newEval(ctx, "marchingCubes")
+	ev.evalRoot(fn)
+	es := eventsOf(ev, ".marchingCubes")
+	if len(es) != 1 || len(es[0].Args) < 3 {
+		r.undecided("V7", key, fn.Pos(), fmt.Sprintf("%d marchingCubes calls", len(es)))
+		return
+	}
+	box := map[string]*Term{}
+	leafTerms("", es[0].Args[1], box)
+	inc, _ := es[0].Args[2].(*Term)
+	if inc == nil || len(box) != 6 {
+		r.undecided("V7", key, es[0].Pos, "box or step is not in closed form")
+		return
+	}
+	bad := ""
+	for _, ax := range axes3 {
+		mx, mn := box[".Max."+ax], box[".Min."+ax]
+		if mx == nil || mn == nil {
+			bad += " axis " + ax + ": missing;"
+			continue
+		}
+		size := Sub(mx, mn)
+		trunc := findSub(size, func(x *Term) bool {
+			return x.Op == "conv" && strings.HasPrefix(x.S, "int") && len(findSub(x.Args[0], func(y *Term) bool { return y.Op == "/" || (y.Op == "call" && y.S != "math.Ceil") })) > 0
+		})
+		ceils := findSub(size, func(x *Term) bool {
+			return x.Op == "call" && x.S == "math.Ceil" && strings.Contains(x.Args[0].Key(), "BoundingBox")
+		})
+		if len(trunc) > 0 {
+			bad += fmt.Sprintf(" axis %s: the cell count is truncated: %s;", ax, shortKey(trunc[0].Key(), 120))
+			continue
+		}
+		if len(ceils) == 0 {
+			bad += fmt.Sprintf(" axis %s: no ceiling of size/inc in the box size %s;", ax, shortKey(size.Key(), 160))
+			continue
+		}
+		want := Mul(Add(ceils[0], K(1)), inc)
+		if !equalRat(stripConv(size), stripConv(want)) {
+			bad += fmt.Sprintf(" axis %s: box size %s is not (⌈size/inc⌉ + 1)·inc;", ax, shortKey(size.Key(), 160))
+		}
+	}
+	r.check("V7", key, es[0].Pos, bad == "", "box handed to marchingCubes = (⌈size/inc⌉ + 1)·inc on every axis;"+bad)
+	r.floor("V7", 1)
 }
